@@ -14,6 +14,7 @@ Inductive c12case :=
 | C12Seq (c : svcase)
 | C12Walk (c : svcase)      (* any conversation without transport faults that ends with every handler returned and the probe *)
 | C12Dead (wedged : bool)   (* the server process died (false) or never became quiescent again (true) in this scenario *)
+| C12Gen (name status : Z)  (* builder st: parseRawMethod re-translated from server.go proved equal to Model/Method.v in this run (status 0) *)
 | C12Method (raw : bytes) (r : option (bytes * bytes))
 | C12Shape (raw : bytes) (k : mkind).
 
@@ -183,7 +184,10 @@ Definition isolated (c : svcase) : bool :=
       forallb (fun e => match e with
                         | SvInvoke h false id _ _ _ =>
                             let got := flat_map (fun e' => match e' with SvOp g (ORecvMsg b) => if Nat.eqb g h then [b] else [] | _ => [] end) evs in
-                            subseqZ got (bodies_for id (drop_until h pairs))
+                            (* the envelopes of its id delivered in the whole conversation: the opener may have been
+                               delivered (and messages behind it) long before the invocation is observed, when the
+                               read loop was parked; an id that is used again later is only checked as one id *)
+                            subseqZ got (bodies_for id pairs)
                         | _ => true end) evs
   end.
 
@@ -230,6 +234,7 @@ Definition check_case_f (fuel : nat) (c : c12case) : list nat :=
                                    ++ (if isolated sc then [] else [9%nat])
                                    ++ (if negb (ends_idle sc) || resets_exact sc then [] else [3%nat])) sc
   | C12Dead wedged => if wedged then [8%nat] else [7%nat]
+  | C12Gen _ status => if status =? 0 then [] else [1%nat]
   | C12Method raw r => if opt_eqb pair_bytes_eqb (parse_method raw) r then [] else [1%nat]
   | C12Shape raw k => if mkind_eqb (kind_of_method raw) k then [] else [1%nat]
   end.
